@@ -43,6 +43,12 @@ def scenario_of(h):
             s['k'] = int(args[5])
         if args[4] == 'true':
             s['misreport'] = 1
+    elif fn == 'index_op_bad':
+        op = int(args[0])
+        if op == 2:
+            s.update(fam='insert', src=1, push=0, oob=1)
+        else:
+            s.update(fam='remove', op=op, sink=1, oob=1)
     elif fn == 'clear_h':
         s.update(fam='clear')
     elif fn == 'clone_h':
@@ -82,8 +88,10 @@ def native_replay(h, info, repo, scratch):
         shutil.copy(os.path.join(ROOT, 'replay', 'vp_replay.rs'), os.path.join(native, 'tests', 'vp_replay.rs'))
     res = dict(driver='replay/vp_replay.rs (real code, public API, Heap backend, std::vec::Vec as oracle)')
     ce = dict(info.get('counterexample_inputs') or {})
+    if scn.pop('oob', None) and 'i' in ce:
+        ce['index'] = ce['i']
     exact = dict(scn)
-    ok_exact = bool(ce) and all(isinstance(v, int) and 0 <= v <= 4096 for k, v in ce.items() if k in ('len', 'index', 'start', 'end', 'f', 'b', 'len_b', 'j'))
+    ok_exact = bool(ce) and all(isinstance(v, int) and 0 <= v <= 4096 for k, v in ce.items() if k in ('len', 'start', 'end', 'f', 'b', 'len_b', 'j'))
     if ok_exact:
         for k in ('len', 'cap', 'index', 'start', 'end', 'f', 'b', 'k', 'len_b', 'cap_b', 'j', 'report', 'n'):
             if k in ce and k not in ('k',) or (k == 'k' and 'k' not in exact and k in ce):
